@@ -83,4 +83,24 @@ theorem all_log_sites_clean : ∀ s ∈ TT.Gen.logSites, s.tainted = false := by
 theorem log_sites_nonempty : 100 ≤ TT.Gen.logSites.length := by
   decide +kernel
 
+/-! ## Records of the TLS library -/
+
+/-- **the TLS library's handshake dumps never reach the log, at any level**: a trace record whose target
+is the TLS library's is dropped whatever the configured maximum -/
+theorem tls_library_traces_never_logged (maxLevel : Nat) (target : List Char)
+    (h : tlsLibrary.isPrefixOf target = true) : loggable maxLevel traceLevel target = false := by
+  simp [loggable, h]
+
+/-- nothing else is filtered: every other record is written exactly when its level is within the maximum -/
+theorem other_records_follow_the_level (maxLevel level : Nat) (target : List Char)
+    (h : level ≠ traceLevel ∨ tlsLibrary.isPrefixOf target = false) :
+    loggable maxLevel level target = decide (level ≤ maxLevel) := by
+  cases h with
+  | inl h => simp [loggable, h]
+  | inr h => simp [loggable, h]
+
+example : loggable 5 5 "rustls::server::hs".toList = false ∧ loggable 5 4 "rustls::server::hs".toList = true
+    ∧ loggable 5 5 "trusttunnel::core".toList = true ∧ loggable 3 4 "trusttunnel::core".toList = false := by
+  decide
+
 end TT.Scrub
